@@ -35,6 +35,27 @@ type gm struct {
 	ext         map[string]string   // pkg.Name -> integer value of constants of imported modules (module cache)
 	scopes      []map[string]string // source name -> name in the embedding (a shadowing declaration is renamed)
 	nshadow     int
+	namedInts   map[string]string // package-level `type T <integer type>`: a conversion T(x) is the conversion to the underlying type
+}
+
+// namedIntTypes: `type msgType byte` … of the files a unit reads its constants from.
+func namedIntTypes(files []*file) map[string]string {
+	out := map[string]string{}
+	for _, f := range files {
+		for _, d := range f.f.Decls {
+			gd, ok := d.(*ast.GenDecl)
+			if !ok || gd.Tok != token.TYPE {
+				continue
+			}
+			for _, sp := range gd.Specs {
+				ts := sp.(*ast.TypeSpec)
+				if id, ok := ts.Type.(*ast.Ident); ok && intTypes[id.Name] {
+					out[ts.Name.Name] = id.Name
+				}
+			}
+		}
+	}
+	return out
 }
 
 func (g *gm) push() { g.scopes = append(g.scopes, map[string]string{}) }
@@ -282,6 +303,9 @@ func (g *gm) call(c *ast.CallExpr) string {
 		}
 		if c.Ellipsis.IsValid() {
 			return "(.callSpread " + strconv.Quote(fn.Name) + " " + g.args(c) + ")"
+		}
+		if under, ok := g.namedInts[fn.Name]; ok && len(c.Args) == 1 && g.resolve(fn.Name) == fn.Name {
+			return "(.call " + strconv.Quote(under) + " " + g.args(c) + ")" // conversion to a named integer type
 		}
 		return "(.call " + strconv.Quote(fn.Name) + " " + g.args(c) + ")"
 	case *ast.SelectorExpr:
@@ -606,6 +630,7 @@ func genGoMini(module string, order []string, units map[string][]string, constFi
 		cf = append(cf, load(p))
 	}
 	consts := collectConsts(cf)
+	named := namedIntTypes(cf)
 	var b strings.Builder
 	fmt.Fprintf(&b, "-- GENERATED by /verif/extract (gen_gomini.go) from /repo — do not edit.\n")
 	fmt.Fprintf(&b, "-- Whole function bodies translated syntactically into the GoMini embedding (Liftbridge/GoMini.lean).\n")
@@ -626,7 +651,7 @@ func genGoMini(module string, order []string, units map[string][]string, constFi
 				names = append(names, "("+strconv.Quote(short)+", "+def+")")
 				continue
 			}
-			g := &gm{f: f, consts: consts, pkgs: importedPkgs(f), cur: fnName, ext: externalConsts(f)}
+			g := &gm{f: f, consts: consts, pkgs: importedPkgs(f), cur: fnName, ext: externalConsts(f), namedInts: named}
 			g.push()
 			recv := "none"
 			if fd.Recv != nil && len(fd.Recv.List) > 0 && len(fd.Recv.List[0].Names) > 0 {
@@ -715,6 +740,11 @@ func genGoMiniAll() []*leanFile {
 		[]string{sv + "partition.go"},
 		map[string][]string{sv + "partition.go": {"partition.getStopOffset"}},
 		[]string{sv + "partition.go", sv + "api.go"})})
+	pr := "server/protocol/"
+	out = append(out, &leanFile{name: "GoEnvelope", raw: genGoMini("GoEnvelope",
+		[]string{pr + "envelope.go"},
+		map[string][]string{pr + "envelope.go": {"checkEnvelope", "hasBit"}},
+		[]string{pr + "envelope.go"})})
 	return out
 }
 
